@@ -1,6 +1,7 @@
 package verifsim
 
 import (
+	"sync"
 	_ "time/tzdata" // the simulated command may run in any time zone
 
 	"context"
@@ -109,10 +110,16 @@ type ExecOpts struct {
 // fakeEpoch is where the synctest clock starts.
 var fakeEpoch = time.Date(2000, 1, 1, 0, 0, 0, 0, time.UTC)
 
+// seamMu guards the counters of the seam callbacks: code under test may call
+// them from several goroutines (operands evaluated concurrently).
+var seamMu sync.Mutex
+
 func installMapOrder(v *Variant, calls *int) {
 	if v.MapSeed == 0 {
 		logqlengine.VerifMapOrder = func(keys []logql.Label) []logql.Label {
+			seamMu.Lock()
 			*calls++
+			seamMu.Unlock()
 			return keys
 		}
 		identity := func(n int) []int {
@@ -128,8 +135,10 @@ func installMapOrder(v *Variant, calls *int) {
 	}
 	root := NewRng(v.MapSeed)
 	logqlengine.VerifMapOrder = func(keys []logql.Label) []logql.Label {
+		seamMu.Lock()
 		r := root.SubN("map", uint64(*calls))
 		*calls++
+		seamMu.Unlock()
 		for i := len(keys) - 1; i > 0; i-- {
 			j := r.Intn(i + 1)
 			keys[i], keys[j] = keys[j], keys[i]
@@ -141,8 +150,11 @@ func installMapOrder(v *Variant, calls *int) {
 	}
 	sampleCalls := uint64(0)
 	logqlmetric.VerifSampleOrder = func(n int) []int {
+		seamMu.Lock()
 		sampleCalls++
-		return root.SubN("samples", sampleCalls).Perm(n)
+		k := sampleCalls
+		seamMu.Unlock()
+		return root.SubN("samples", k).Perm(n)
 	}
 }
 
@@ -534,9 +546,32 @@ func runCLI(d *Daemon, p *Plan, out *Outcome) (res evalResult) {
 	defer cancel()
 	d.CancelFn = cancel
 	var sb strings.Builder
-	res.err = CLIRunner(ctx, &simCli{c: d}, p.CLI.Argv, &sb)
+	var w io.Writer = &sb
+	if d.variant.StdoutFailAfter > 0 {
+		w = &failingWriter{w: &sb, left: d.variant.StdoutFailAfter}
+	}
+	res.err = CLIRunner(ctx, &simCli{c: d}, p.CLI.Argv, w)
 	out.Stdout = sb.String()
 	return res
+}
+
+// failingWriter accepts a number of bytes and then reports a broken pipe.
+type failingWriter struct {
+	w    io.Writer
+	left int
+}
+
+func (f *failingWriter) Write(p []byte) (int, error) {
+	if f.left <= 0 {
+		return 0, io.ErrClosedPipe
+	}
+	if len(p) > f.left {
+		n, _ := f.w.Write(p[:f.left])
+		f.left = 0
+		return n, io.ErrClosedPipe
+	}
+	f.left -= len(p)
+	return f.w.Write(p)
 }
 
 // execParseLog decodes the single container's stream with dockerlog.ParseLog.
